@@ -116,7 +116,7 @@ def parseOp (s : String) : Option Op :=
 def applyOp (fs : FS) : Op → FS
   | .del p => removeAll p fs
   | .put p n =>
-    write p n ((removeAll p fs).filter (fun e => !(e.1.isPrefixOf p && e.1 != p && e.2 != .dir)))
+    write p n (mkdirAll p.dropLast ((removeAll p fs).filter (fun e => !(e.1.isPrefixOf p && e.1 != p && e.2 != .dir))))
 
 structure Input where
   ws : Workspace
